@@ -439,7 +439,7 @@ pub fn run(tier: Tier) -> i32 {
     let cases = Arc::new(cases);
     let next = std::sync::atomic::AtomicUsize::new(0);
     std::thread::scope(|s| {
-        for _ in 0..8 {
+        for _ in 0..16 {
             s.spawn(|| loop {
                 let i = next.fetch_add(1, std::sync::atomic::Ordering::Relaxed);
                 if i >= cases.len() {
